@@ -1,7 +1,7 @@
 (* PublicProofs.v — theorems about the public (signature) token schemes of Public.v:
    instance lemmas, acceptance characterisation (C02), round trips under [laws O] (C01). *)
 From Coq Require Import List NArith String Bool Lia Arith.
-From PV Require Import Bytes Result Pae Oracle Local Public LocalProofs.
+From PV Require Import Bytes Result Rs Pae Oracle Local Public LocalProofs.
 Import ListNotations.
 Set Default Timeout 60.
 Local Open Scope list_scope.
@@ -100,14 +100,19 @@ Section Instances.
   Lemma v4_punseal_inst pk enc p f a : v4_public_unseal O pk enc p f a = pg_unseal (v4_pparams O) pk enc p f a.
   Proof.
     unfold v4_public_unseal, pg_unseal, v4_pparams. cbn [pp_aad pp_slen pp_pre pp_check negb andb].
-    split_tail 64; [reflexivity|]. unfold chk. destruct (ed_verify O pk _ _); reflexivity.
+    split_tail 64; [reflexivity|].
+    (* len >= 64: `len - 64`, `split_at(len - 64)` and `tag.try_into().unwrap()` (exactly 64 bytes) are safe *)
+    rewrite rs_sub_ok by lia. rewrite rs_split_at_ok by lia. rewrite rs_exact_ok by (rewrite drop_length; lia).
+    unfold chk. destruct (ed_verify O pk _ _); reflexivity.
   Qed.
 
   Lemma v2_punseal_inst pk enc p f a : v2_public_unseal O pk enc p f a = pg_unseal (v2_pparams O) pk enc p f a.
   Proof.
     unfold v2_public_unseal, pg_unseal, v2_pparams. cbn [pp_aad pp_slen pp_pre pp_check negb andb].
     destruct (negb (isnil a)); [reflexivity|].
-    split_tail 64; [reflexivity|]. unfold chk. destruct (ed_verify O pk _ _); reflexivity.
+    split_tail 64; [reflexivity|].
+    rewrite rs_sub_ok by lia. rewrite rs_split_at_ok by lia. rewrite rs_exact_ok by (rewrite drop_length; lia).
+    unfold chk. destruct (ed_verify O pk _ _); reflexivity.
   Qed.
 
   Lemma na_punseal_inst pk enc p f a : na_public_unseal O pk enc p f a = pg_unseal (na_pparams O) pk enc p f a.
@@ -130,7 +135,7 @@ Section Instances.
   Lemma lc_punseal_inst pk enc p f a : lc_public_unseal O pk enc p f a = pg_unseal (lc_pparams O) pk enc p f a.
   Proof.
     unfold lc_public_unseal, pg_unseal, lc_pparams. cbn [pp_aad pp_slen pp_pre pp_check negb andb].
-    split_tail 96; [reflexivity|]. unfold chk.
+    split_tail 96; [reflexivity|]. rewrite rs_sub_ok by lia. rewrite rs_split_at_ok by lia. unfold chk.
     match goal with |- context [if ?b then _ else _] => destruct b end; reflexivity.
   Qed.
 
